@@ -144,7 +144,7 @@ def wsse_configs(rng, ctx):
                        "enc": False}
                 if rng.random() < 0.5:
                     if rng.random() < 0.5:
-                        nv = rng.choice(["N0nce==", "N0nce==", "a&b<c>d", "x \"y\" 'z'"])
+                        nv = rng.choice(["N0nce==", "N0nce==", "a&b<c>d", "x \"y\" 'z'", "", "0"])
                         t.setnonce(nv)
                         cfg["nonce"] = nv
                     else:
@@ -200,7 +200,7 @@ def check_security(ctx, meta, node, spec):
         if (n is not None) != (cfg["nonce"] is not None):
             ctx.fail("nonce presence wrong", meta, n is not None, cfg["nonce"])
         elif n is not None:
-            if cfg["nonce"] != "*" and n["text"] != cfg["nonce"]:
+            if cfg["nonce"] != "*" and (n["text"] or "") != cfg["nonce"]:
                 ctx.fail("nonce text wrong", meta, n["text"], cfg["nonce"])
             if ((None, "EncodingType") in n["attrs"]) != cfg["enc"]:
                 ctx.fail("nonce EncodingType wrong", meta, n["attrs"], cfg["enc"])
@@ -310,6 +310,7 @@ def run(ctx):
     declared_elsewhere(ctx)
     unconfigured(ctx)
     zoned_timestamps(ctx)
+    header_parts_declared_by_type(ctx)
     ctx.sample(metas[3] if len(metas) > 3 else metas[0])
     ctx.sample(metas[-1])
 
@@ -452,6 +453,26 @@ def zoned_timestamps(ctx):
         if created != [text, text] or len(expires) != 1 or not expires[0].endswith(text[19:]):
             ctx.fail("a security timestamp does not carry the configured instant (zone offset lost or changed)", meta,
                      {"Created": created, "Expires": expires}, {"Created": [text, text], "Expires offset": text[19:]})
+
+
+def header_parts_declared_by_type(ctx):
+    """A soap:header whose message part is declared with type= (not element=): the entry is named after the part
+    and, like an rpc part accessor, in no namespace - under every way of giving the value."""
+    w = wsdlkit.wsdl_doc('<xsd:element name="f" type="xsd:string"/>', "f", None,
+                         header_parts=[("type", "xsd:string"), ("element", "x:f")])
+    for label, hv in (("scalar", "tv"), ("tuple", ("tv", "ev")), ("dict", {"h": "tv"})):
+        for prefixes in (True, False):
+            meta = {"stream": "header-part-by-type", "soapheaders": label, "prefixes": prefixes}
+            ctx.case(common.canon(meta), True)
+            try:
+                env = wsdlkit.envelope_bytes(wsdlkit.client(w, nosend=True, soapheaders=hv, prefixes=prefixes).service.f("v"))
+                hdr = xmlread.find1(xmlread.parse(env), "Header")
+                got = [[list(c["name"]), c.get("text")] for c in hdr["children"]][:1]
+            except Exception as e:
+                got = "%s: %s" % (type(e).__name__, e)
+            if got != [[[None, "h"], "tv"]]:
+                ctx.fail("a header part declared by type is not sent as the unqualified part accessor", meta, got,
+                         [[[None, "h"], "tv"]])
 
 
 def widen(ctx):
